@@ -585,6 +585,20 @@ def h_real_fmt(fa: int, fb: int, fc: int, ba: int, bold: bool, crossed: bool, no
         raise Violation(f"real-fmt :: {err}")
 
 
+def h_effects(bits: int, ck: int, as_bytes: bool, no_color: bool, shard=None) -> None:
+    """every combination of the five effects (each True / left out), text and bytes formatter, 4 color specs"""
+    reject_unless(0 <= bits < 32 and 0 <= ck < 4)
+    bits, ck, as_bytes, no_color = [realize(x) for x in (bits, ck, as_bytes, no_color)]
+    col, bg = [(None, None), ("RED", None), (None, "g5"), (200, (1, 2, 3))][ck]
+    names = ["bold", "faint", "underline", "blink", "crossed"]
+    kw = {"color": col, "bg_color": bg, "no_color": no_color, "make_bytes": as_bytes}
+    for i, nm in enumerate(names):
+        kw[nm] = True if (bits >> i) & 1 else None
+    err = check_fmt_concrete(kw)
+    if err:
+        raise Violation(f"real-fmt :: {err}")
+
+
 def h_text_roundtrip(n: int, l0: int, l1: int, l2: int, k0: int, k1: int, k2: int, shard=None) -> None:
     """strip_colors(str(x)) == x.plain_text() and per-character terminal state for CHText values of several chunks"""
     import ak.color as C
@@ -643,5 +657,6 @@ def jobs(tier: str) -> List[Job]:
     xk = [(2, 0), (0, 2), (3, 0), (4, 0), (1, 1), (5, 0), (6, 0), (0, 6), (0, 4), (0, 3)] if not t else [(a, b) for a in range(7) for b in range(7) if (a, b) != (3, 3)]
     for fk, bk in xk:
         js.append(Job(__name__, "h_real_fmt", shard={"fk": fk, "bk": bk}, budget_s=900 if t else 100, label=f"xh:real_fmt:{fk}{bk}", must_exhaust=True))
+    js.append(Job(__name__, "h_effects", shard={}, budget_s=300 if t else 80, label="xh:effects-text-and-bytes", must_exhaust=True))
     js.append(Job(__name__, "h_text_roundtrip", shard={}, budget_s=600 if t else 80, label="xh:text_roundtrip"))
     return js
